@@ -394,18 +394,23 @@ func runSecretRotation(c *Ctx, r *Rng) {
 		b, _ := p.Encode()
 		return b
 	}
-	send := func(b []byte) string {
+	// patience: long where a dispatch is due (a loaded machine may be slow), short where none is
+	send := func(b []byte, due bool) string {
 		cn.in <- fakePkt{b, fakeAddr(peerAddr(0))}
+		patience := 150 * time.Millisecond
+		if due {
+			patience = 3 * time.Second
+		}
 		select {
 		case n := <-gotc:
 			return n
-		case <-time.After(150 * time.Millisecond):
+		case <-time.After(patience):
 			return ""
 		}
 	}
 	kind := r.Pick(0, 1, 2)
 	var log_ []string
-	log_ = append(log_, "first (old secret): "+send(mk(1, "first", oldSec)))
+	log_ = append(log_, "first (old secret): "+send(mk(1, "first", oldSec), true))
 	ss.mu.Lock()
 	switch kind {
 	case 0:
@@ -416,8 +421,8 @@ func runSecretRotation(c *Ctx, r *Rng) {
 		ss.errs[peerAddr(0)] = true
 	}
 	ss.mu.Unlock()
-	log_ = append(log_, "stale (old secret): "+send(mk(2, "stale", oldSec)))
-	log_ = append(log_, "fresh (new secret): "+send(mk(3, "fresh", newSec)))
+	log_ = append(log_, "stale (old secret): "+send(mk(2, "stale", oldSec), false))
+	log_ = append(log_, "fresh (new secret): "+send(mk(3, "fresh", newSec), kind == 0))
 	ctx, cancel := context.WithTimeout(context.Background(), 3*time.Second)
 	srv.Shutdown(ctx)
 	cancel()
